@@ -36,22 +36,32 @@ ASSUMPTIONS = [
     'the spec compares token *sets* modulo empty strings: a ticket issued without tokens is reported with tokens [\'\']',
 ]
 TRUSTED = [
-    'hand-written model coq/Model/C09.v of AuthTicket, parse_ticket, calculate_digest, encode_ip_timestamp, '
-    'AuthTktCookieHelper.identify/remember/forget/_get_cookies, util.strings_differ (shape-pinned)',
+    'translator harness/c09/translate.py: its PRIMITIVE TABLE (which Python leaf expression / idiom becomes which Gallina '
+    'primitive of Model/C09_base.v, Lib/C09Base.v, Lib/Text.v, Lib/Percent.v, Lib/Utf8.v) and its control-flow rules; the '
+    'control flow of parse_ticket, calculate_digest, encode_ip_timestamp, AuthTicket.digest/cookie_value, '
+    'AuthTktCookieHelper.identify/remember/forget/_get_cookies is NOT hand-modelled any more: it is regenerated from the '
+    'source on every run and proved equal to the reference model (C09_generated_*_is_model)',
+    'shape pins only for what is not translated: AuthTicket.__init__, AuthTktCookieHelper.__init__, BadTicket, b64encode, '
+    'b64decode, util.strings_differ/text_/bytes_/ascii_',
     'coq/Lib/C09Base.v: CPython int(s, base) leniency, %08x / str(int), base64 (b64encode, lenient a2b_base64), UTF-8 '
     'errors=replace, urllib.parse.unquote on str -- modelled, validated by the correspondence run, not verified',
     'WebOb CookieProfile / request cookie parsing: oracle for the Set-Cookie text (headers are parsed back by WebOb)',
     'Unicode database (decimal digits / spaces accepted by int()): oracle table computed with int() itself',
 ]
-TECHNIQUE = ('Coq proofs on a hand-written Gallina model (hash function abstract: theorems hold for every H) + '
-             'regenerated constants + extracted-model differential correspondence with a hashlib oracle')
-LEVEL_TEXT = ('Machine-checked theorems for every cookie string, clock value, configuration and operation sequence; see '
-              'harness/c09/NOTES.md for the list.  Tied to the code by shape pins on every modelled function, regenerated '
-              'constants (comparison operators, field widths, separators, token grammar, type-tag tables) and the '
-              'differential run of the extracted model against the real helper.')
-LEVEL_NOTE = ('Trusted: Coq kernel; hand-written model (validated by correspondence, shape-pinned); Python harness; '
-              'hashlib/WebOb/Unicode-database behaviour taken as oracles.  Premises visible in theorem statements: '
-              'length (H a x) = digest length, H output is lower-case hex, issue time < 2^32.')
+TECHNIQUE = ('Coq proofs about a Gallina program whose control flow is translated from the Python source on every run '
+             '(harness/c09/translate.py: fail-closed ast -> Gallina, leaves through a primitive table), proved equal to a '
+             'hand-written reference model; hash function abstract (theorems hold for every H); regenerated constants; '
+             'differential correspondence of the extracted REGENERATED program with a hashlib oracle')
+LEVEL_TEXT = ('Machine-checked theorems for every cookie string, clock value (whole and half seconds), configuration and '
+              'operation sequence, stated both about the reference model and literally about the program regenerated from '
+              'src/pyramid/authentication.py on this run (..._generated); C09_generated_*_is_model prove function by function '
+              '(one induction per loop) that the regenerated program is the reference model, so a semantics-preserving rewrite '
+              'of the source regenerates a term the same proofs accept, while a semantic change makes an equality theorem fail '
+              'and the correspondence / spec run supplies the replay.  See harness/c09/NOTES.md.')
+LEVEL_NOTE = ('Trusted: Coq kernel; the translator\'s primitive table and control-flow rules (anything outside subset / table is '
+              'a broken tie, never a guess); Python harness; hashlib/WebOb/Unicode-database behaviour taken as oracles; pins for '
+              'the few untranslated functions.  Premises visible in theorem statements: length (H a x) = digest length, H output '
+              'is hex (scalar values, no leading quote), issue time < 2^32.')
 
 ALGS = G.ALGS
 
